@@ -4,6 +4,9 @@ import importlib
 import os
 import sys
 import traceback
+import warnings
+
+warnings.filterwarnings('ignore', category=SyntaxWarning)   # generated modules echo spec docs with backslashes
 
 sys.path.insert(0, os.path.dirname(os.path.dirname(os.path.abspath(__file__))))
 from harness import core  # noqa: E402
